@@ -784,12 +784,22 @@ def disp8(ctx) -> List[Ob]:
         if len(ks) > 1:
             out.append(bad("DISP-8", "<module>", f"class {v} registered twice", where_reg, f"class {v} is registered under {sorted(ks)}: the writer's reverse lookup picks one, the round trip changes the type name"))
     # the writer's class -> type-name lookup returns each registered class's own name
-    rl = next((f for f in prog.functions if f.name == "reverse_lookup" and f.parent_fn is io["to_dict"]), None)
+    # the helper is recognised by role (a first-match scan of block_type_names.items() called by the
+    # writer), wherever it lives: nested in to_dict, a static method of the reader / writer class, or a
+    # module-level function
+    from .common import reverse_lookup_call
+
+    rl = None
+    for c_ in A.walk_no_nested(io["to_dict"].node):
+        r_ = reverse_lookup_call(prog, io["to_dict"], c_) if isinstance(c_, ast.Call) else None
+        if r_ is not None and A.unparse(r_[0].table).split(".")[-1] == "block_type_names":
+            rl = r_[0].fn
+            break
     key = "writer looks a class up under its own name"
     if rl is None:
         out.append(unresolved("DISP-8", io["to_dict"].qualname, key, ctx.where(io["to_dict"]), "no reverse_lookup helper in to_dict: cannot see how a class is mapped to its type name"))
     else:
-        vparam = rl.params[0].arg
+        vparam = [p.arg for p in rl.params if p.arg not in ("self", "cls")][0]
         lps = [lp for lp in A.walk_no_nested(rl.node) if isinstance(lp, ast.For)]
         verdict_ = None
         if len(lps) == 1 and isinstance(lps[0].target, ast.Tuple) and len(lps[0].target.elts) == 2:
@@ -800,7 +810,7 @@ def disp8(ctx) -> List[Ob]:
             if isinstance(it, ast.Call) and isinstance(it.func, ast.Name) and it.func.id == "reversed" and it.args:
                 rev_order, it = True, it.args[0]
             ifs = [n for n in lp.body if isinstance(n, ast.If)]
-            if A.unparse(it) == "block_type_names.items()" and len(ifs) == 1 and ifs[0].body and isinstance(ifs[0].body[0], ast.Return) and A.unparse(ifs[0].body[0].value) == kv:
+            if A.unparse(it).split(".")[-2:] == ["block_type_names", "items()"] and len(ifs) == 1 and ifs[0].body and isinstance(ifs[0].body[0], ast.Return) and A.unparse(ifs[0].body[0].value) == kv:
                 t = A.unparse(ifs[0].test)
                 if t in (f"{cv} == {vparam}", f"{vparam} == {cv}", f"{cv} is {vparam}", f"{vparam} is {cv}"):
                     mode = "exact"
